@@ -431,3 +431,24 @@ Proof.
 Qed.
 
 End WithOracles.
+
+(* ---- a concrete configuration for the non-vacuity examples of Properties_C03.v / Properties_C04.v:
+   the instantiation of the oracles used by the correspondence run ------------------------------------- *)
+
+Definition ex_dom : list N := [97; 46; 98; 99].                              (* a.bc *)
+Definition ex_pw : list N := [112; 119] ++ repeat 0 30.
+Definition ex_c (chk : bool) : cfg :=
+  {| c_topdomain := ex_dom; c_password := ex_pw; c_check_ip := chk; c_my_ip := 16777226 (* 10.0.0.1 *);
+     c_netmask := 27; c_mtu := 1130; c_ns_ip := None; c_bind := false |}.
+Definition ex_ips : list N := fst (Users.init_users 16777226 27).
+Definition ex_A : addr := {| a_fam := 2; a_ip := [192; 0; 2; 10]; a_port := 4000 |}.
+Definition ex_B : addr := {| a_fam := 2; a_ip := [192; 0; 2; 11]; a_port := 4001 |}.
+Definition ex_q (name : list N) (from : addr) (id : N) : hq :=
+  {| h_name := name; h_type := 10; h_id := id; h_from := from; h_id2 := 0; h_from2 := addr0; h_dest := None |}.
+Definition ex_name (letter : N) (payload : list N) : list N :=
+  [letter] ++ fst (encode b32 200 payload) ++ [46] ++ ex_dom.
+Definition ex_V (from : addr) : hq := ex_q (ex_name 118 [0; 0; 5; 2; 0; 1]) from 7.
+Definition ex_L (from : addr) (uid seed : N) : hq := ex_q (ex_name 108 (uid :: login_stub ex_pw seed ++ [0; 1])) from 8.
+Definition ex_step (chk : bool) := Server.step login_stub zc_frame unz_frame (ex_c chk).
+Definition ex_flags (st : sstate) (i : nat) := (u_active (getu st i), u_auth (getu st i), u_seed (getu st i), u_last (getu st i)).
+
